@@ -459,6 +459,34 @@ fn handle_line(sess: &mut Option<Session>, scratch: &str, line: &str) -> String 
             };
             fmt_result(&mut s.ctx, r, "canon")
         }
+        "PUSHVAR" => {
+            // PUSHVAR <var> <path|-> <int>: push an integer, through the Rust API (TulispObject::push, which extends a list in
+            // place), onto the list found at <path> (a = car, d = cdr) inside the value of the variable
+            let p: Vec<&str> = rest.split_whitespace().collect();
+            if p.len() != 3 {
+                return "BADCMD".to_string();
+            }
+            let mut cur = match s.ctx.intern(p[0]).get() {
+                Ok(v) => v,
+                Err(_) => return "ERR".to_string(),
+            };
+            for ch in p[1].chars() {
+                let next = match ch {
+                    'a' => cur.car(),
+                    'd' => cur.cdr(),
+                    _ => continue,
+                };
+                cur = match next {
+                    Ok(v) => v,
+                    Err(_) => return "ERR".to_string(),
+                };
+            }
+            let n: i64 = p[2].parse().unwrap_or(0);
+            match cur.push(TulispObject::from(n)) {
+                Ok(_) => "OK".to_string(),
+                Err(_) => "ERR".to_string(),
+            }
+        }
         "INVENTORY" => {
             // every interned symbol that is bound, with its binding depth and (canonical) value
             let names: Vec<String> = s
